@@ -158,6 +158,15 @@ Section Loop.
       assert (Hs : false = true); [|discriminate]. eapply run_stops_beyond; [|exact Hr]. lia.
   Qed.
 
+End Loop.
+
+Section Bounded.
+  Variable per_date : Z -> list call.
+  Variables (s0 : Z) (rc : recur).
+  Let p := r_period (rc_rule rc).
+  Let b := r_bound (rc_rule rc).
+  Hypothesis Hp : 0 < p.
+
   Lemma in_bound_rule_len : forall k, 0 <= k -> in_bound b s0 p k = true -> b <> RForever -> k < rule_len s0 rc.
   Proof.
     intros k Hk H Hb. unfold rule_len. fold b. fold p. destruct b as [n|u|]; [| |congruence]; cbn in H.
@@ -179,4 +188,4 @@ Section Loop.
     - destruct (run_calls fn (per_date (s0 + k * p)) st) as [st' stop']. destruct stop'; [eexists; reflexivity|].
       apply IH; [lia|exact Hb|lia].
   Qed.
-End Loop.
+End Bounded.
